@@ -711,6 +711,21 @@ func genAccessors(p *packages.Package, absRepo, srcOut string, overlay map[strin
 		}
 		rep.Accessors["environment.Environment.VerifScopeDepth"] = field
 		code = "package environment\n\n// VerifScopeDepth reports the number of open local scopes.\nfunc (e *Environment) VerifScopeDepth() int { " + body + " }\n"
+		// the names of the global variables that exist (whatever their value)
+		gfield := findField(p, "Environment", func(t types.Type) bool {
+			m, ok := t.Underlying().(*types.Map)
+			if !ok {
+				return false
+			}
+			b, ok := m.Key().Underlying().(*types.Basic)
+			return ok && b.Kind() == types.String && strings.HasSuffix(m.Elem().String(), "/object.Object")
+		})
+		gbody := "return nil, false"
+		if gfield != "" {
+			gbody = "out := make([]string, 0, len(e." + gfield + ")); for k := range e." + gfield + " { out = append(out, k) }; return out, true"
+		}
+		rep.Accessors["environment.Environment.VerifGlobalNames"] = gfield
+		code += "\n// VerifGlobalNames lists the global variables that exist.\nfunc (e *Environment) VerifGlobalNames() ([]string, bool) { " + gbody + " }\n"
 	case "vm":
 		field := findField(p, "VM", func(t types.Type) bool {
 			pt, ok := t.(*types.Pointer)
@@ -740,7 +755,11 @@ func genAccessors(p *packages.Package, absRepo, srcOut string, overlay map[strin
 		}
 		rep.Accessors["Eval.VerifScopes"] = fe
 		rep.Accessors["Eval.VerifStack"] = fv
-		code = "package " + p.Name + "\n\n// VerifScopes reports the number of open local scopes.\nfunc (e *Eval) VerifScopes() int { " + b1 + " }\n\n// VerifStack reports the depth of the value stack.\nfunc (e *Eval) VerifStack() int { " + b2 + " }\n"
+		b3 := "return nil, false"
+		if fe != "" {
+			b3 = "if e." + fe + " == nil { return nil, false }; return e." + fe + ".VerifGlobalNames()"
+		}
+		code = "package " + p.Name + "\n\n// VerifScopes reports the number of open local scopes.\nfunc (e *Eval) VerifScopes() int { " + b1 + " }\n\n// VerifStack reports the depth of the value stack.\nfunc (e *Eval) VerifStack() int { " + b2 + " }\n\n// VerifGlobalNames lists the global variables that exist.\nfunc (e *Eval) VerifGlobalNames() ([]string, bool) { " + b3 + " }\n"
 	default:
 		return
 	}
